@@ -396,6 +396,10 @@ func (c *userTypesCollector) collect(node internalSchema.Node) {
 			c.collect(child)
 		}
 
+	case *internalSchema.MixedNode:
+		// The root of a rule-set of an "or" rule may be of object kind.
+		c.collectUserTypesFromAdditionalPropertiesOfConstraint(node)
+
 	case *internalSchema.MixedValueNode:
 		for _, ut := range strings.Split(n.Value().String(), "|") {
 			s := strings.TrimSpace(ut)
